@@ -323,10 +323,13 @@ func cmdCheck(args []string) int {
 	var covers []*Obl
 	for _, o := range sel {
 		if o.enc != nil && fnSeen[o.Fn] && o.enc.fn != nil {
-			if c := o.enc.coverObl(); c != nil {
-				covers = append(covers, c)
-			}
+			covers = append(covers, o.enc.coverObls()...)
 			fnSeen[o.Fn] = false
+		}
+	}
+	for _, o := range sel {
+		if _, inBase := bl.Obligations[o.Name]; !inBase && *tier == "quick" && (o.Kind == "panic" || strings.HasPrefix(o.Label, "nonnil.")) {
+			o.Short = true
 		}
 	}
 	res := solveAll(rc.w, sel, *tier, 16, "")
@@ -335,11 +338,21 @@ func cmdCheck(args []string) int {
 	for _, r := range res {
 		byObl[r.Obl] = r
 	}
+	// a function is vacuous when none of its return sites is reachable under the assumed contracts
+	// (a single unreachable return is ordinary dead code, e.g. a nil check under the non-nil default)
 	vacuous := map[string]bool{}
+	reach := map[string]bool{}
 	for _, r := range cres {
-		if r.Status == "discharged" { // unsat: no return is reachable under the assumptions
-			vacuous[r.Obl.Fn] = true
+		if r.Status == "discharged" {
+			if _, seen := vacuous[r.Obl.Fn]; !seen {
+				vacuous[r.Obl.Fn] = true
+			}
+		} else {
+			reach[r.Obl.Fn] = true
 		}
+	}
+	for fn := range reach {
+		delete(vacuous, fn)
 	}
 	solveS := time.Since(t0).Seconds()
 	exit := 0
@@ -353,11 +366,17 @@ func cmdCheck(args []string) int {
 	return exit
 }
 
-func (e *Enc) coverObl() *Obl {
-	if e.fn == nil || len(e.retGuards) == 0 {
+// coverObls: one reachability query per return site; an unsat answer means the assumptions on every path to that
+// return are contradictory (vacuous proofs).
+func (e *Enc) coverObls() []*Obl {
+	var out []*Obl
+	if e.fn == nil {
 		return nil
 	}
-	return &Obl{Fn: e.key, Name: e.key + "#cover:return", Kind: "cover", NAssert: len(e.asserts), Guard: or(e.retGuards...), Goal: "false", enc: e, Inputs: e.inputs}
+	for i, g := range e.retGuards {
+		out = append(out, &Obl{Fn: e.key, Name: fmt.Sprintf("%s#cover:return%d", e.key, i+1), Kind: "cover", NAssert: len(e.asserts), Guard: g, Goal: "false", enc: e, Inputs: e.inputs})
+	}
+	return out
 }
 
 func checkProperty(rc *runCtx, p, tier string, seed int, verif string, bl Baseline, kfs []KnownFinding, sel []*Obl, oprops map[*Obl][]string,
